@@ -242,6 +242,19 @@ def drop_nulls(v):
     return v
 
 
+def unpositional(m, c, key=None):
+    """undo 'struct written as positional array' wherever the canonical value is an object"""
+    if isinstance(c, dict) and isinstance(m, list):
+        order = FIELD_ORDER_TEST07 if set(c.keys()) == set(FIELD_ORDER_TEST07) else FIELD_ORDER.get(key)
+        if order and len(m) == len(order):
+            m = {f: v for f, v in zip(order, m)}
+    if isinstance(c, dict) and isinstance(m, dict):
+        return {k: unpositional(v, c.get(k), k) for k, v in m.items()}
+    if isinstance(c, list) and isinstance(m, list) and len(c) == len(m):
+        return [unpositional(x, y, key) for x, y in zip(m, c)]
+    return m
+
+
 def flag_combos(step):
     canon = MODE.get(step)
     for more in (False, True):
@@ -261,6 +274,7 @@ def apply_flags(req, flags):
 
 
 GETINFO = {"method": "org.varlink.service.GetInfo"}
+CANON = {}  # step name -> canonical request, filled by main()
 
 
 def outcome(conn, req):
@@ -340,6 +354,7 @@ def main(tier, replay):
         for i, step in enumerate(STEPS):
             req = request(step, cid, prev)
             canon[step] = req
+            CANON[step] = req
             c.send(req)
             if step == "Test11":
                 prev = {}
@@ -497,7 +512,12 @@ def one_fault(ctx, srv, k, req, kind, path, id_mode="own", lock=None, replay=Fal
         if out[0] == "success":
             sig_kind = kind.split(":")[0]
             where = "set-entry" if any(x in ("set", "stringset") for x in path) else ("struct" if sig_kind == "struct-as-array" else "other")
-            if sig_kind == "struct-as-array":
+            canon_p = CANON.get(STEPS[k], {}).get("parameters")
+            mine = req.get("parameters")
+            if isinstance(mine, dict) and isinstance(canon_p, dict):
+                mine = dict(mine, client_id=canon_p.get("client_id"))
+            only_positional = "struct-as-array" in kind and canon_p is not None and drop_nulls(unpositional(mine, canon_p)) == drop_nulls(canon_p)
+            if sig_kind == "struct-as-array" or only_positional:
                 ctx.violation("c19:deviation-passes:struct-written-as-positional-array", wit)
             else:
                 ctx.violation("c19:deviation-passes:%s:%s:%s" % (STEPS[k], sig_kind, where), wit)
